@@ -1,6 +1,7 @@
 package rules
 
 import (
+	"go/constant"
 	"go/token"
 	"go/types"
 	"sort"
@@ -704,79 +705,90 @@ func nilImplies(h, failedFn *ssa.Function) (errNil, notFailed bool) {
 // runOptionSources: the named fields of the RunOptions literal handed to NewRun come from the same-named
 // command-line flag and the same-named config-file option.
 func runOptionSources(c *core.Ctx, r *core.Report, names []string) {
-	var lit *ssa.Alloc
+	var arg ssa.Value
 	var where *ssa.Function
+	var site ssa.CallInstruction
 	for _, fn := range c.AllFuncs {
 		if core.RelPkg(fn) != "internal/run" {
 			continue
 		}
 		for _, call := range an.AllCalls(fn) {
-			if t := an.Callee(call); t != nil && t.Name() == "NewRun" {
-				if a := an.StructLiteralOf(call.Common().Args[0]); a != nil {
-					lit, where = a, fn
-				}
+			if t := an.Callee(call); t != nil && t.Name() == "NewRun" && core.RelPkg(t) == "internal/run" {
+				arg, where, site = call.Common().Args[0], fn, call
 			}
 		}
 	}
-	if lit == nil {
-		panic(core.AnchorError{What: "RunOptions literal handed to NewRun"})
+	if arg == nil {
+		panic(core.AnchorError{What: "the call of NewRun in internal/run"})
 	}
-	fields := an.LiteralFieldStores(lit)
-	for _, f := range names {
-		vs, ok := fields[f]
-		if !ok {
-			r.Violation(core.FuncName(where)+"#"+f, c.Pos(lit.Pos()), "RunOptions.%s is never set", f)
-			continue
+	isFlagGet := func(v ssa.Value) (*ssa.Call, string) {
+		if ex, ok := v.(*ssa.Extract); ok {
+			v = ex.Tuple
 		}
+		call, ok := v.(*ssa.Call)
+		if !ok {
+			return nil, ""
+		}
+		t := an.Callee(call)
+		if t == nil || !strings.HasPrefix(t.Name(), "Get") || t.Signature.Recv() == nil || !strings.HasSuffix(t.Signature.Recv().Type().String(), "pflag.FlagSet") {
+			return nil, ""
+		}
+		for _, a := range call.Call.Args {
+			if k, isK := a.(*ssa.Const); isK && k.Value != nil && k.Value.Kind() == constant.String {
+				return call, constant.StringVal(k.Value)
+			}
+		}
+		return call, "?"
+	}
+	for _, f := range names {
+		// where the field of the options handed to NewRun can come from, through whatever helpers assemble them
+		leaves := fieldSourcesOf(c, arg, f, where)
 		var ds []string
-		for _, v := range vs {
-			ds = append(ds, an.D().Of(v))
+		okCfg, okFlag, stray := false, false, ""
+		var flagReads []*ssa.Call
+		set := false
+		for _, l := range leaves {
+			if _, isAlloc := l.V.(*ssa.Alloc); isAlloc {
+				continue // the zero value of a literal that does not mention the field
+			}
+			set = true
+			ds = append(ds, an.D().Of(l.V))
+			if fld, owner := an.TerminalField(l.V); fld != nil && an.IsNamed(owner, apiPkg, "Options") {
+				if fld.Name() == f {
+					okCfg = true
+				} else {
+					stray = "the config option Options." + fld.Name()
+				}
+				continue
+			}
+			if call, name := isFlagGet(l.V); call != nil {
+				if name == kebab(f) {
+					okFlag = true
+					flagReads = append(flagReads, call)
+				} else {
+					stray = "the flag --" + name
+				}
+			}
 		}
 		sort.Strings(ds)
 		d := strings.Join(ds, " | ")
-		okCfg := strings.Contains(d, ".Options."+f)
-		okFlag := strings.Contains(d, "\""+kebab(f)+"\"")
-		r.Check(okCfg && okFlag, core.FuncName(where)+"#"+f, c.Pos(lit.Pos()), f+" ← "+d, "RunOptions."+f+" is fed from "+d+": expected the config option Options."+f+" and the flag --"+kebab(f))
+		key := core.FuncName(where) + "#" + f
+		if !set {
+			r.Violation(key, an.Pos(c, site), "RunOptions.%s is never set", f)
+			continue
+		}
+		if stray != "" {
+			r.Violation(key, an.Pos(c, site), "RunOptions.%s is fed from %s (sources: %s): expected the config option Options.%s and the flag --%s", f, stray, d, f, kebab(f))
+			continue
+		}
+		r.Check(okCfg && okFlag, key, an.Pos(c, site), f+" ← "+d, "RunOptions."+f+" is fed from "+d+": expected the config option Options."+f+" and the flag --"+kebab(f))
 		// the flag is consulted only when the trigger does not bring its own options (config-file mode keeps the file's)
-		seen := map[ssa.Value]bool{}
-		var flagReads []*ssa.Call
-		var walk func(v ssa.Value, depth int)
-		walk = func(v ssa.Value, depth int) {
-			v = stripAllocs(v)
-			if v == nil || seen[v] || depth > 8 {
-				return
-			}
-			seen[v] = true
-			switch x := v.(type) {
-			case *ssa.Phi:
-				for _, e := range x.Edges {
-					walk(e, depth+1)
-				}
-			case *ssa.Extract:
-				walk(x.Tuple, depth+1)
-			case *ssa.Call:
-				if t := an.Callee(x); t != nil && strings.HasPrefix(t.Name(), "Get") && t.Signature.Recv() != nil && strings.HasSuffix(t.Signature.Recv().Type().String(), "pflag.FlagSet") {
-					flagReads = append(flagReads, x)
-				}
-			case *ssa.UnOp:
-				if al, ok := x.X.(*ssa.Alloc); ok {
-					for _, st := range an.StoresTo(al) {
-						walk(st.Val, depth+1)
-					}
-				}
-			}
-		}
-		for _, v := range vs {
-			walk(v, 0)
-		}
 		for _, fr := range flagReads {
-			guarded := false
-			for _, g := range an.GuardsOf(fr.Block()) {
-				if fld, _ := an.TerminalField(g.Cond); fld != nil && fld.Name() == "IgnoreCommonFlags" && !g.Polarity {
-					guarded = true
-				}
-			}
-			r.Check(guarded, core.FuncName(where)+"#"+f+"-flag-only-without-own-options", an.Pos(c, fr), "the --"+kebab(f)+" flag is read only when the trigger does not ignore the common flags", "the --"+kebab(f)+" flag is read also when the trigger brings its own options (config-file mode): the flag's default silently replaces the value from the file")
+			guarded := guardedUp(c, fr, func(g an.Guard) bool {
+				fld, _ := an.TerminalField(g.Cond)
+				return fld != nil && fld.Name() == "IgnoreCommonFlags" && !g.Polarity
+			}, 3)
+			r.Check(guarded, key+"-flag-only-without-own-options", an.Pos(c, fr), "the --"+kebab(f)+" flag is read only when the trigger does not ignore the common flags", "the --"+kebab(f)+" flag is read also when the trigger brings its own options (config-file mode): the flag's default silently replaces the value from the file")
 		}
 	}
 }
